@@ -43,3 +43,31 @@ BVF_BASE = BASE_DECLS + stub_int() + BIT_CONV_STUB + [("decl", "bvf.consts")]
 
 GROUPS["bvf_shift"] = G("bvf_shift", BVF_PRELUDE,
     BVF_BASE + stub(BVF_CORE) + verify(["bvf.shl_assign", "bvf.shr_assign"]))
+
+# -------------------------------------------------------------------------------------------------
+# property -> jobs
+TYPES6 = ["u8", "u16", "u32", "u64", "u128", "usize"]
+PROPS = {}
+
+def shifts_jobs(words, amounts):
+    return [("bvf_shift", {"I": w, "T": t}) for w in words for t in amounts]
+
+PROPS["C05"] = {
+    "quick": shifts_jobs(["u64"], TYPES6) + shifts_jobs(["u8"], ["u8", "u128"]),
+    "thorough": shifts_jobs(["u8", "u16", "u32", "u64"], TYPES6),
+}
+
+# -------------------------------------------------------------------------------------------------
+# manifest texts
+NOT_CLAIMED = {}
+MANIFEST_TEXT = {}
+TRUST_NOTE = ("Trusted base (also listed verbatim in the evidence): assumed contracts of std functions (T1: overflowing_add/sub, "
+              "Result::map_or, integer TryFrom, ...), machine model 64-bit little-endian (T5), storage < usize::MAX/2 bits (A-size), "
+              "Bvf::new/Bvd::new called with well-formed parts (A-new), rustc expansion + the extractor's rewrite table R1-R12, Verus + Z3.")
+MANIFEST_TEXT["C05"] = dict(
+    text=("Proof: the real bodies of ShlAssign/ShrAssign<T> for Bvf<I,N> (T = all six native types), extracted from /repo on every run, "
+          "are verified by Verus against the bit-list contract `bit i of result == bit i-k (resp. i+k) of self if in range else 0`, for all "
+          "lengths, all values, symbolic N, and the mathematical value of the shift amount (so amounts >= 2^64 are covered)."),
+    note=("Covered so far: Bvf<u8|u16|u32|u64,N> assign forms. Not yet under contract (reported in evidence.uncovered): Bvd/Bv shifts, "
+          "shl_in/shr_in, by-value/by-reference wrapper forms, u128/usize words. " + TRUST_NOTE),
+)
